@@ -44,14 +44,22 @@ def judge(ctx, res, tpath, what):
                   {"clause": res["clause"], "segment": seg[:200]})
 
 
+def concat(dst, srcs):
+    with open(dst, "w") as out:
+        for s in srcs:
+            with open(s) as f:
+                out.write(f.read())
+
+
 def run(ctx):
     ctx.mc("AggregateMC", ctx.pick("AggregateMC.cfg", "AggregateMCT.cfg"), workers=ctx.pick(4, 8))
     ctx.neg("AggregateMC", "AggregateNeg.cfg", expect="I_AggState", workers=2)
-    ctx.neg("AggregateMC", "AggregateNeg2.cfg", expect="I_PickOnlyAgg", workers=2)
     ctx.neg("AggregateMC", "AggregateNeg3.cfg", expect="I_RRFair", workers=2)
+    if not ctx.quick():
+        ctx.neg("AggregateMC", "AggregateNeg2.cfg", expect="I_PickOnlyAgg", workers=2)
     binary = ctx.go_build("internal/zzverif/c35")
     g = ctx.dump_graph("AggregateMC", ctx.pick("AggregateGen.cfg", "AggregateGenT.cfg"))
-    behs = ctx.edge_cover(g, step_of, limit=ctx.pick(600, 12000))
+    behs = ctx.edge_cover(g, step_of, limit=ctx.pick(500, 12000))
     bpath = os.path.join(ctx.run, "beh.ndjson")
     tpath = os.path.join(ctx.run, "trace-replay.ndjson")
     write_ndjson(bpath, behs)
@@ -59,12 +67,15 @@ def run(ctx):
     for b in behs:
         ctx.count(b, nontrivial=len(b) >= 2, n=3)
     ctx.sample(behs[len(behs) // 2])
-    judge(ctx, ctx.validate("AggregateTrace", "AggregateTrace.cfg", tpath), tpath, "replay of TLC behaviours")
     tpath2 = os.path.join(ctx.run, "trace-random.ndjson")
-    n = ctx.pick(200, 6000)
+    n = ctx.pick(150, 6000)
     ctx.driver(binary, "TestVerifC35Random", {"VERIF_OUT": tpath2, "VERIF_N": n})
     ctx.count({"random_runs": n, "seed": ctx.seed}, n=n)
-    judge(ctx, ctx.validate("AggregateTrace", "AggregateTrace.cfg", tpath2), tpath2, "random input sequences seed %d" % ctx.seed)
+    # one validation run over both traces (replayed TLC behaviours, then the random ones)
+    tall = os.path.join(ctx.run, "trace-all.ndjson")
+    concat(tall, [tpath, tpath2])
+    judge(ctx, ctx.validate("AggregateTrace", "AggregateTrace.cfg", tall), tall,
+          "replayed TLC behaviours + random input sequences (seed %d)" % ctx.seed)
     ctx.cov["rule"] = ("behaviours = edge cover of the TLC state graph of Aggregate.tla (BFS prefix + one transition), each executed on "
                        "ConnectivityStateEvaluator, endpointsharding and weightedaggregator; non-trivial = >= 2 steps; distinct by step "
                        "sequence; plus seeded random input sequences of 5-45 steps over up to 6 children")
